@@ -3,6 +3,8 @@ From SwimV Require Import Model.Handlers Proofs.HandlersProofs Props.C06.
 Open Scope N_scope.
 Check (C06_machine_is_depth_first) : (forall lc h st tr r, (exists g, run g lc (init h) st tr = Some r) <-> (exists f, eval f lc h st tr = Some r)).
 Print Assumptions C06_machine_is_depth_first.
+Check (C06_and_then_is_sequencing) : (forall lc g a b st tr, run g lc (init (HThen a b)) st tr = run g lc (init (HSeq a b)) st tr).
+Print Assumptions C06_and_then_is_sequencing.
 Check (C06_deterministic) : (forall lc g1 g2 s st tr r1 r2, run g1 lc s st tr = Some r1 -> run g2 lc s st tr = Some r2 -> r1 = r2).
 Print Assumptions C06_deterministic.
 Check (C06_set_triggers_event_then_set) : (forall lc f st tr l v, eval (S f) lc (HSetV l v) st tr = eval f lc (HSeq (HSeq (HRecord (EOnEvent l v)) (lc_event lc l)) (HSeq (HRecord (EOnSet l v (Some (v_content (vget st l))))) (lc_set lc l))) (settled st l v) tr).
